@@ -213,6 +213,10 @@ func New(sections []*config_parser.Section) (conf *Config, err error) {
 	for _, spec := range configSectionSpecs {
 		section, ok := nameToSection[spec.name]
 		if !ok {
+			// Section left out: still apply the documented defaults of its keys.
+			if err := decodeConfigSection(conf, spec.name, &config_parser.Section{Name: spec.name}); err != nil {
+				return nil, fmt.Errorf("failed to apply defaults of \"%v\": %w", spec.name, err)
+			}
 			continue
 		}
 		if err := decodeConfigSection(conf, spec.name, section.Val); err != nil {
